@@ -45,6 +45,9 @@ func (i *Inv) FailedInv() bool { return i.Ended && !i.Succeeded() }
 // WriteRec is one applied storage write.
 type WriteRec struct {
 	Seq  int
+	// AckSeq: event at which the engine got the answer of this write: Seq itself when
+	// writes take no simulated time, 1<<60 when the answer was never delivered.
+	AckSeq int
 	T    int64
 	Gen  int
 	Path string
@@ -109,6 +112,7 @@ func BuildTrace(res *RunResult) *Trace {
 		res.Layouts = t.Layouts
 	}
 	open := map[string]*Inv{} // path#k#gen
+	bySeq := map[int]*WriteRec{}
 	pending := map[string]*APIRec{}
 	t.EndSeq = len(t.Events)
 	for _, e := range t.Events {
@@ -124,9 +128,17 @@ func BuildTrace(res *RunResult) *Trace {
 			}
 		case EvWrite:
 			if e.W != nil {
-				w := &WriteRec{Seq: e.Seq, T: e.T, Gen: e.Gen, Path: e.Obj, Op: e.Op, St: *e.W}
+				w := &WriteRec{Seq: e.Seq, AckSeq: e.Seq, T: e.T, Gen: e.Gen, Path: e.Obj, Op: e.Op, St: *e.W}
+				if t.Res.Spec.Policy.WriteLatUs > 0 {
+					w.AckSeq = 1 << 60
+				}
+				bySeq[e.Seq] = w
 				t.Writes = append(t.Writes, w)
 				t.WByPath[e.Obj] = append(t.WByPath[e.Obj], w)
+			}
+		case EvWriteAck:
+			if w := bySeq[e.Ref]; w != nil {
+				w.AckSeq = e.Seq
 			}
 		case EvAPICall:
 			a := &APIRec{Client: e.Client, Op: e.Op, Plan: PlanOfPath(e.Obj), Gen: e.Gen, CallSeq: e.Seq, RetSeq: -1, CallT: e.T}
